@@ -35,6 +35,7 @@ import (
 	"github.com/foxcpp/maddy/framework/module"
 	"github.com/foxcpp/maddy/internal/authz"
 	"github.com/foxcpp/maddy/internal/check/authorize_sender"
+	"github.com/foxcpp/maddy/internal/msgpipeline"
 	"github.com/foxcpp/maddy/internal/testutils"
 	"github.com/foxcpp/maddy/internal/verifshim/vc15"
 	"github.com/foxcpp/maddy/internal/verifshim/vh"
@@ -49,6 +50,21 @@ type c15Switch struct {
 	authUser string
 	// the neighbour family: the ordering gate of the current session (nil: no neighbour verdict)
 	gate *c15Gate
+	// the place family: record what authorize_sender answers at the sender stage (q r i -; "": not asked)
+	rec     bool
+	senderV string
+}
+
+// c15RecState records the verdict of the real state on the sender.
+type c15RecState struct {
+	module.CheckState
+	sw *c15Switch
+}
+
+func (r *c15RecState) CheckSender(ctx context.Context, from string) module.CheckResult {
+	res := r.CheckState.CheckSender(ctx, from)
+	r.sw.senderV = c15VerdictLetter(res)
+	return res
 }
 
 func (s *c15Switch) CheckStateForMsg(ctx context.Context, m *module.MsgMetadata) (module.CheckState, error) {
@@ -58,6 +74,9 @@ func (s *c15Switch) CheckStateForMsg(ctx context.Context, m *module.MsgMetadata)
 		s.authUser = m.Conn.AuthUser
 	}
 	st, err := s.cur.CheckStateForMsg(ctx, m)
+	if err == nil && s.rec {
+		return &c15RecState{CheckState: st, sw: s}, nil
+	}
 	if err != nil || s.gate == nil {
 		return st, err
 	}
@@ -402,6 +421,122 @@ func c15Session(t *testing.T, out *vh.Out, endp *Endpoint, store *c15Auth, tgt *
 	}
 }
 
+// c15PlacedSession: the place family.  The check group with authorize_sender is declared globally, in the source
+// block or in the destination block of relay.example (real pipeline behind the real endpoint); the client names
+// recipients of the checked block (R) and of the block without checks (L) in the order of the case.  Monitor: a
+// message that reaches a target BEHIND the check (place d: the target of relay.example; g / s: both targets) under an
+// all-reject configuration must come from a client entitled to the envelope sender and to the author.
+func c15PlacedSession(t *testing.T, out *vh.Out, endp *Endpoint, store *c15Auth, sw *c15Switch, nb *c15Neighbour, cs *vc15.Case) {
+	op := vc15.SessionOpLine(cs)
+	endp.saslAuth.AuthNormalize = nil
+	store.verified, store.verifiedName = false, ""
+	sw.sawMsg, sw.authUser = false, ""
+	chk, err := c15BuildCheck(cs)
+	if err != nil {
+		out.Violation("C15/session-config-rejected", op, err.Error())
+		return
+	}
+	sw.cur, sw.gate, nb.gate = chk, nil, nil
+	sw.rec, sw.senderV = true, ""
+	defer func() { sw.rec = false }()
+	tgt, relayTgt := &testutils.Target{}, &testutils.Target{}
+	old := endp.pipeline
+	p := msgpipeline.VerifC15Placed(cs.LPlace, "relay.example", tgt, relayTgt, []module.Check{nb, sw})
+	p.Hostname, p.Resolver, p.FirstPipeline, p.Log = old.Hostname, old.Resolver, old.FirstPipeline, old.Log
+	endp.pipeline = p
+	defer func() { endp.pipeline = old }()
+
+	stage, refused, pattern := "dial", "", ""
+	func() {
+		cl, err := smtp.Dial("127.0.0.1:" + testPort)
+		if err != nil {
+			t.Fatal(err)
+		}
+		defer cl.Close()
+		_ = cl.Hello("mx.example.org")
+		if cs.User != "" {
+			stage = "auth"
+			if err := cl.Auth(sasl.NewPlainClient("", cs.User, "password")); err != nil {
+				return
+			}
+		}
+		stage = "mail"
+		if err := cl.Mail(cs.MailFrom, &smtp.MailOptions{UTF8: true}); err != nil {
+			return
+		}
+		stage = "rcpt"
+		accepted := 0
+		for i, k := range cs.LOrder {
+			dom := "example.org"
+			if k == 'R' {
+				dom = "relay.example"
+			}
+			if err := cl.Rcpt(fmt.Sprintf("rcpt%d@%s", i, dom), nil); err != nil {
+				refused += string(k)
+				pattern += "x"
+				continue
+			}
+			refused += "-"
+			pattern += "a"
+			accepted++
+		}
+		if accepted == 0 {
+			return
+		}
+		stage = "data"
+		w, err := cl.Data()
+		if err != nil {
+			return
+		}
+		w.Write(cs.Raw)
+		w.Write([]byte("\r\nbody\r\n"))
+		if err := w.Close(); err != nil {
+			return
+		}
+		stage = "done"
+		cl.Quit()
+	}()
+	// (T2) which recipients were accepted, against the model's placedRcpts (argument: what the real check answered on
+	// the sender, recorded at the state)
+	if len(pattern) == len(cs.LOrder) && sw.senderV != "" {
+		out.Corr(fmt.Sprintf("C15 placed %s %s %s", cs.LPlace, cs.LOrder, sw.senderV), pattern)
+		out.Stat("session.placed.rcpts." + cs.LPlace + "." + sw.senderV)
+	}
+	allReject := cs.UA == "r" && cs.NA == "r" && cs.EA == "r"
+	out.Stat("session.placed." + cs.LPlace + ".actions-all-reject." + vc15.B01(allReject))
+	out.Stat(fmt.Sprintf("session.placed.%s.end-%s.local-%d.relay-%d", cs.LPlace, stage, len(tgt.Messages), len(relayTgt.Messages)))
+	if (stage == "done") != (len(tgt.Messages)+len(relayTgt.Messages) > 0) {
+		out.Violation("C15/session-reply-disagrees-with-delivery", op, fmt.Sprintf("client stage %s, delivered %d + %d", stage, len(tgt.Messages), len(relayTgt.Messages)))
+	}
+	if !allReject {
+		return
+	}
+	behind := append([]module.DeliveryTarget{}, relayTgt)
+	if cs.LPlace != "d" {
+		behind = append(behind, tgt)
+	}
+	for _, b := range behind {
+		for _, msg := range b.(*testutils.Target).Messages {
+			where := "place " + cs.LPlace + ", recipients " + cs.LOrder + " (refused: " + refused + "), delivered to " + strings.Join(msg.RcptTo, ",")
+			if msg.MsgMeta.Conn == nil || msg.MsgMeta.Conn.AuthUser == "" {
+				out.Violation("C15/session-unauthenticated-delivered", op, "message reached a target behind the check without an authenticated user; "+where)
+				continue
+			}
+			_, d, has := vc15.SplitLast(msg.MailFrom)
+			if ok, _ := vc15.RefEntitled(cs, msg.MailFrom, d, has); !ok {
+				out.Violation("C15/session-envelope-sender-not-entitled", op, fmt.Sprintf("user %q delivered with MAIL FROM %q; %s", cs.User, msg.MailFrom, where))
+			}
+			if cs.CheckHeader {
+				from, sender := cs.GTFrom, cs.GTSender
+				if !cs.GTKnown {
+					from, sender = vc15.ParsedReading(msg.Header.Values("From"), msg.Header.Values("Sender"))
+				}
+				vc15.JudgeAuthor(out, cs, from, sender, op, "/session")
+			}
+		}
+	}
+}
+
 // c15SubmissionFacts reads submission.go of the CURRENT tree: which header fields does
 // submissionPrepare write?  (The model's frame fact `submissionWrites`.)
 func c15SubmissionFacts(out *vh.Out) {
@@ -510,6 +645,16 @@ func TestVerifC15Session(t *testing.T) {
 		for i, nw := 0, n/8; i < nw; i++ {
 			cases = append(cases, vc15.GenWithDomainCase(rw.Fork(), true))
 		}
+		// the place family: the check group declared globally / in the source block / in a destination block
+		cases = append(cases, vc15.FixedPlaced()...)
+		rl := vh.NewRng(vh.Seed() + 151522)
+		for i, nl := 0, n/6; i < nl; i++ {
+			cs := vc15.GenCase(rl.Fork(), true)
+			cs.Conn = true
+			cs.UA, cs.NA, cs.EA = "r", "r", "r"
+			vc15.GenPlaced(rl.Fork(), cs)
+			cases = append(cases, cs)
+		}
 		// the identity family: AUTH PLAIN with every kind of authorization identity
 		cases = append(cases, vc15.FixedAuthz()...)
 		rz := vh.NewRng(vh.Seed() + 151516)
@@ -540,6 +685,11 @@ func TestVerifC15Session(t *testing.T) {
 		nb := &c15Neighbour{}
 		endp := testEndpoint(t, kind, store, &tgt, []module.Check{nb, sw}, nil)
 		for _, cs := range mine {
+			if cs.HasL {
+				c15PlacedSession(t, out, endp, store, sw, nb, cs)
+				out.Stat("session.endpoint." + kind)
+				continue
+			}
 			c15Session(t, out, endp, store, &tgt, sw, nb, cs)
 			out.Stat("session.endpoint." + kind)
 		}
